@@ -38,7 +38,7 @@ BUDGET_S = {'quick': 240, 'thorough': 2400}
 
 FEATS = ('hier', 'abstract', 'unreg', 'extra', 'enum', 'strlike', 'any',
          'untyped', 'date', 'path', 'buf', 'abstract_containers', 'defaults',
-         'multi', 'raises', 'hooks', 'permissive', 'opt_any')
+         'multi', 'raises', 'hooks', 'permissive', 'opt_any', 'underscore')
 
 TOKENS = ['a', 'b', 'x', '1', '1.5', 'true', '~', 'null', ':', ': ', '- ', '-',
           '? ', ',', '[', ']', '{', '}', '&a ', '*a', '&b ', '*b', '!A ', '!B ',
